@@ -174,6 +174,23 @@ def check(ctx: Ctx) -> None:
                 ob.violation(fi, c, "a user callback is invoked uncontained in the receiver thread: one raising callback ends the receiver and with it every channel of the gateway")
         ob.require(n >= 2, f"{n} callback invocations in receiver context (floor 2)")
 
+    with ctx.obligation("C07.f", "error-before-wakeup") as ob:
+        # a receiver woken by ENDMARKER / _receiveclosed must already find the error stored
+        for q in (f"{GB}.ChannelFactory._local_close", f"{GB}.Channel.close"):
+            fi = repo.func(q)
+            cf = build_cfg(repo, fi, Oracle(repo, fi, precise=True))
+            apps = cfg_nodes_with_call(cf, lambda c: callee_attr(c) == "append" and "_remoteerrors" in unparse(c.func))
+            wakes = cfg_nodes_with_call(cf, lambda c: (callee_attr(c) == "put" and c.args and unparse(c.args[0]) == "ENDMARKER")
+                                        or (callee_attr(c) == "set" and "_receiveclosed" in unparse(c.func)))
+            ob.require(len(apps) == 1 and len(wakes) >= 2, f"{fi.short}: error store / wake-up sites not found")
+            for w in wakes:
+                late = apps[0].id in cf.reach([w.id])
+                ob.site(fi, w.ast, "wake-up of waiting receivers happens after the error was stored", ok=not late)
+                if late:
+                    ob.violation(fi, apps[0].ast, "the RemoteError is stored after the waiters were woken (ENDMARKER queued / _receiveclosed set): a blocked receive()/waitclose() "
+                                                  "can see a plain EOF / clean close and the error surfaces late or never",
+                                 construct=f"{fi.short}: error stored after {norm(w.ast)[:50]}")
+
     with ctx.obligation("C07.e", "after-items-once") as ob:
         fg = repo.func(f"{GB}.Channel._getremoteerror")
         pops = [c for c in repo.calls_in(fg) if callee_attr(c) == "pop" and "_remoteerrors" in unparse(c.func)]
